@@ -827,30 +827,33 @@ impl<'a> Exec<'a> {
             return self.skip("byte_replica_rejects");
         }
         self.stats.checks += 1;
-        #[derive(PartialEq)]
-        enum Tri {
-            Dead,
-            Alive,
-            Unknown,
-        }
-        fn go(m: &mut llguidance::Matcher, depth: usize, budget: &mut usize) -> Tri {
+        // Bounded search, from the byte-level replica of the current state, for a *reachable* state
+        // that is not accepting and has an empty mask (a proved dead end: sound by construction,
+        // a branch still alive at the bound is simply not reported). All allowed bytes are expanded
+        // near the root, a deterministic sample of them deeper down.
+        fn go(
+            m: &mut llguidance::Matcher,
+            depth: usize,
+            level: usize,
+            budget: &mut usize,
+            path: &mut Vec<u8>,
+            seed: u64,
+        ) -> Option<Vec<u8>> {
             if m.is_stopped() {
-                return if m.is_error() { Tri::Unknown } else { Tri::Alive };
+                return None;
             }
-            if m.is_accepting().unwrap_or(false) {
-                return Tri::Alive;
-            }
+            let acc = m.is_accepting().unwrap_or(true);
             if *budget == 0 {
-                return Tri::Unknown;
+                return None;
             }
             *budget -= 1;
             let mask = match m.compute_mask() {
                 Ok(mk) => mk,
                 Err(e) => {
-                    return if classify_err(&e.to_string()) == ErrClass::NoExt {
-                        Tri::Dead
+                    return if classify_err(&e.to_string()) == ErrClass::NoExt && !acc {
+                        Some(path.clone())
                     } else {
-                        Tri::Unknown
+                        None
                     }
                 }
             };
@@ -861,56 +864,61 @@ impl<'a> Exec<'a> {
                 }
             });
             if allowed.is_empty() {
-                return Tri::Dead;
+                return if acc { None } else { Some(path.clone()) };
             }
             if depth == 0 {
-                return Tri::Unknown;
+                return None;
             }
-            let mut unknown = false;
-            // closers first: they tend to lead to acceptance quickly
-            allowed.sort_by_key(|b| match *b as u8 {
-                b'"' | b'}' | b']' | b')' | b';' | b'.' | b'\n' => 0,
-                b'0'..=b'9' => 1,
-                b'a'..=b'z' => 2,
-                _ => 3,
-            });
+            let width = if level < 2 { 256 } else { 6 };
+            if allowed.len() > width {
+                // deterministic sample, always keeping the first and last allowed byte
+                let mut r = crate::rng::Rng::new(seed ^ (path.len() as u64) << 32 ^ crate::rng::fnv_bytes(7, path));
+                let first = allowed[0];
+                let last = *allowed.last().unwrap();
+                r.shuffle(&mut allowed);
+                allowed.truncate(width - 2);
+                allowed.push(first);
+                allowed.push(last);
+                allowed.sort();
+                allowed.dedup();
+            }
             for t in allowed {
                 let mut c = m.clone();
                 if c.consume_tokens(&[t]).is_err() {
-                    unknown = true;
                     continue;
                 }
-                match go(&mut c, depth - 1, budget) {
-                    Tri::Alive => return Tri::Alive,
-                    Tri::Unknown => unknown = true,
-                    Tri::Dead => {}
+                path.push(t as u8);
+                let r = go(&mut c, depth - 1, level + 1, budget, path, seed);
+                path.pop();
+                if r.is_some() {
+                    return r;
+                }
+                if *budget == 0 {
+                    break;
                 }
             }
-            if unknown {
-                Tri::Unknown
-            } else {
-                Tri::Dead
-            }
+            None
         }
         let mut budget = nodes;
-        let r = go(&mut b, depth, &mut budget);
-        match r {
-            Tri::Dead => Err(self.viol(
+        let mut path = vec![];
+        let seed = crate::rng::fnv_bytes(nodes as u64, &bytes);
+        match go(&mut b, depth, 0, &mut budget, &mut path, seed) {
+            Some(p) => Err(self.viol(
                 "no_dead_end",
                 "proved_dead_end",
                 format!(
-                    "h{h}: after {:?} no token sequence can reach a state where generation may stop (exhaustive search depth {depth})",
-                    String::from_utf8_lossy(&bytes)
+                    "h{h}: after {:?} the allowed bytes {:?} lead to a state that is not accepting and allows nothing",
+                    String::from_utf8_lossy(&bytes),
+                    String::from_utf8_lossy(&p)
                 ),
             )),
-            Tri::Alive => {
-                self.stats.probe("dead_end_search_alive");
-                self.ev(format!("chk_dead h{h} alive"));
-                Ok(())
-            }
-            Tri::Unknown => {
-                self.stats.probe("dead_end_search_unknown");
-                self.ev(format!("chk_dead h{h} unknown"));
+            None => {
+                if budget == 0 {
+                    self.stats.probe("dead_end_search_budget_exhausted");
+                } else {
+                    self.stats.probe("dead_end_search_complete_to_depth");
+                }
+                self.ev(format!("chk_dead h{h} none"));
                 Ok(())
             }
         }
